@@ -14,6 +14,21 @@ Theorem C04_get_handler_follows_rule :
     Routes subapps default host uri (get_handler subapps default host uri).
 Proof. exact get_handler_spec. Qed.
 
+(* WebSocket upgrade requests are dispatched by the same rule over the WebSocket routes (call_websocket_handler; `None` =
+   the connection is closed without an upgrade), and which HTTP routes are registered has no influence on it *)
+Theorem C04_ws_dispatch_follows_rule :
+  forall (subapps : list subapp2) (default : subapp2) (upgrade : bool) (host : option (list N)) (uri : list N),
+    if upgrade
+    then Routes (map ws_view subapps) (ws_view default) host uri (dispatch_request subapps default true host uri)
+    else Routes (map http_view subapps) (http_view default) host uri (dispatch_request subapps default false host uri).
+Proof. exact dispatch_request_spec. Qed.
+
+Theorem C04_ws_dispatch_ignores_http_routes :
+  forall subapps subapps' default default' host uri,
+    map ws_view subapps = map ws_view subapps' -> ws_view default = ws_view default' ->
+    dispatch_request subapps default true host uri = dispatch_request subapps' default' true host uri.
+Proof. exact dispatch_request_tables_independent. Qed.
+
 (* The rule leaves no freedom: the outcome is a function of the Host value, the path and registration order. *)
 Theorem C04_rule_is_deterministic :
   forall subapps default host uri c1 c2,
@@ -33,5 +48,7 @@ Example C04_examples :
 Proof. vm_compute. repeat split. Qed.
 
 Print Assumptions C04_get_handler_follows_rule.
+Print Assumptions C04_ws_dispatch_follows_rule.
+Print Assumptions C04_ws_dispatch_ignores_http_routes.
 Print Assumptions C04_rule_is_deterministic.
 Print Assumptions C04_examples.
